@@ -13,6 +13,7 @@ CANARIES = {
     'exceptions-dropped': ('wn.morphy',
                            "candidates.update(self._exceptions[pos].get(form, set()))",
                            "pass"),
+    'exceptions-overwrite': ('wn.morphy', "pos_exc[other].add(lemma)", "pos_exc[other] = {lemma}"),
     'dup-union': ('wn._core', "        if result not in seen:\n", "        if True:\n"),
 }
 rt.setup(canaries=CANARIES)
@@ -252,6 +253,20 @@ def _in_last(form, i):
     return True
 
 
+def h_init2x(form: str, l1: str, l2: str, f1: str, f2: str, same: bool) -> bool:
+    """
+    pre: len(form) == 1 and len(l1) == 1 and len(l2) == 1 and len(f1) == 1 and len(f2) == 1
+    post: _
+    """
+    # two words that may share their additional (irregular) form and/or their lemma
+    qpos = POS_PARTS[1 + rt.part(len(POS_PARTS) - 1)[0]]
+    p1 = qpos if qpos != 'x' else 'n'
+    p2 = p1 if same else _OTHER[qpos]
+    words = [_W(p1, [l1, f1]), _W(p2, [l2, f2])]
+    m = M.Morphy(_FakeWordnet(words))
+    return rt.verdict(_check_init(m, form, qpos, words))
+
+
 def h_init_allpos(form: str, l1: str, f1: str) -> bool:
     """
     pre: len(form) <= MAXQA
@@ -277,15 +292,16 @@ class _Ent:
     __hash__ = None if rt.SYM else (lambda self: hash(self.key))
 
 
-def h_union(q: str, fa: str, fb: str, ra: int, rb: int, rq: int, both: bool, np: bool) -> bool:
+def h_union(q: str, fa: str, fb: str, ra: int, rb: int, rq: int, both: bool, np: bool,
+            pa: bool, pb: bool) -> bool:
     """
     pre: len(q) == 1 and len(fa) == 1 and len(fb) == 1
     pre: 0 <= ra < 3 and 0 <= rb < 3 and 0 <= rq < 3
     post: _
     """
     # a stub lemmatizer proposing up to two (pos, form) pairs; a stub query function over a
-    # symbolic table form -> entity number (0 = nothing found)
-    table = [(fa, ra), (fb, rb), (q, rq)]
+    # symbolic table (form, pos) -> entity number (0 = nothing found)
+    table = [(fa, 'n' if pa else 'v', ra), (fb, 'n' if pb else 'v', rb), (q, 'n', rq)]
 
     def lemmatizer(form, pos):
         if np:
@@ -298,8 +314,8 @@ def h_union(q: str, fa: str, fb: str, ra: int, rb: int, rq: int, both: bool, np:
                    search_all_forms=False, **kw):
         out = []
         for f in forms:
-            for tf, ent in table:
-                if tf == f and ent != 0:
+            for tf, tp, ent in table:
+                if tf == f and ent != 0 and (pos is None or pos == tp):
                     if not _contains(out, ent):
                         out.append(ent)
         return [(e,) for e in out]
@@ -321,9 +337,9 @@ def h_union(q: str, fa: str, fb: str, ra: int, rb: int, rq: int, both: bool, np:
     else:
         pairs = [('n', fa)]
     want = []
-    for _p, f in pairs:
-        for tf, ent in table:
-            if tf == f and ent != 0 and not _contains(want, ent):
+    for p, f in pairs:
+        for tf, tp, ent in table:
+            if tf == f and ent != 0 and (p is None or p == tp) and not _contains(want, ent):
                 want.append(ent)
     ok = len(got) == len(want)
     if ok:
@@ -354,6 +370,16 @@ OBLIGATIONS = [
               f'{POS_PARTS[1:]} (one partition each)',
        outside='longer strings; see initialized-2words for two words',
        stubs=['Wordnet.words()/Word.forms()/Word.pos: a fake wordnet with symbolic content']),
+    Ob('initialized-shared-forms', 'h_init2x', parts=len(POS_PARTS) - 1,
+       quick=dict(timeout=150), thorough=dict(timeout=600),
+       canary='exceptions-overwrite', canary_part=0,
+       functions=['wn.morphy.Morphy.__init__', 'wn.morphy.Morphy.__call__',
+                  'wn.morphy.Morphy._morphstr'],
+       symbolic='query, two lemmas, two additional forms',
+       bounds='strings of length 1 (any code point; every equality pattern among the 5 strings); '
+              'two words of the same or of a different pos; query pos one partition each',
+       outside='rule outputs (covered by initialized-1word); longer strings',
+       stubs=['fake wordnet as above']),
     Ob('initialized-2words', 'h_init', parts=len(POS_PARTS) - 1, tiers=('thorough',),
        quick=dict(timeout=200), thorough=dict(timeout=1500),
        canary='unfiltered-candidates', canary_part=0,
@@ -379,7 +405,7 @@ OBLIGATIONS = [
     Ob('lemmatizer-union', 'h_union', parts=1, quick=dict(timeout=120),
        thorough=dict(timeout=600), canary='dup-union',
        functions=['wn._core._find_helper'],
-       symbolic='query, two proposed forms, the entity each form finds',
+       symbolic='query, two proposed forms, the entity and the pos each form is stored under',
        bounds='strings of length 1 (any code point); lemmatizer proposes 0, 1 or 2 (pos, form) '
               'pairs; 3-row form table',
        stubs=['lemmatizer: returns the symbolic pairs', 'query function: lookup in a symbolic '
